@@ -1,6 +1,8 @@
 /-
   Driver/State.lean — `pair` and `state` request families, crystal states for `opt`.
 -/
+import Generated.FnsPacked
+import Generated.FnsPotential
 import Model.State
 import Model.Parser
 import Generated.Tables
@@ -130,6 +132,16 @@ def pState : P (Except String (Crystal Float)) := do
               cell := { st0.cell with length := l, ratio := r, angle := a }
               sites := (st0.sites.zip sites).map fun (s, (x, y, t)) => { s with x := x, y := y, angle := t } })
 
+/-- the score of a crystal state AS TRANSLATED FROM THE SOURCE (tools/rs2lean.py: `PackedState::score` /
+`PotentialState::score` with everything below them down to the pair energies and areas); over the reals
+it is `Crystal.score` (Proofs/TiePacked, TiePotential).  The driver scores states with it, so that the
+correspondence compares the crate with its own translation bit for bit and a harmless re-association of
+the crate's floating-point arithmetic does not change the comparison. -/
+def genScore (st : Crystal Float) : Option Float :=
+  match st.kind with
+  | .hard => Gen.packed_score st
+  | .lj => Gen.potential_score st
+
 def scoreHex : Option Float → String
   | some x => "some " ++ fhex x
   | none => "none"
@@ -140,7 +152,7 @@ def execState (op : String) (ts : List String) : Option String :=
     | .error e => pure ("err " ++ e)
     | .ok st =>
       match op with
-      | "score" => pure ("ok " ++ scoreHex st.score)
+      | "score" => pure ("ok " ++ scoreHex (genScore st))
       | "params" => pure (s!"ok {st.totalShapes}" ++ String.join (st.heap.toList.map fun x => " " ++ fhex x))
       | "relpos" => pure ("ok " ++ matsHex st.relPositions)
       | "cartpos" => pure ("ok " ++ matsHex st.cartPositions)
@@ -170,7 +182,7 @@ def execOptCrystal (trace : Bool) (ts : List String) : Option String :=
     match (← pState) with
     | .error e => pure ("err " ++ e)
     | .ok st =>
-      let score : Nat → Array Float → Option Float := fun _ h => (st.withHeap h).score
+      let score : Nat → Array Float → Option Float := fun _ h => genScore (st.withHeap h)
       pure (optRun b st.heap st.handles score trace)
   (p.run ts).map (·.1)
 
